@@ -98,6 +98,18 @@ fn reply_for(kind: u8) -> Result<HttpResponse, FakeErr> {
         9 => response(200, j, br#"{"error":"authorization_pending"}"#),
         10 => response(400, j, br#"{"access_token":"tok-OK","token_type":"bearer"}"#),
         11 => response(401, j, br#"{"error":"AUTHORIZATION_PENDING"}"#),
+        // decisive replies under statuses a "retry on gateway trouble" shortcut would single out
+        12 => response(504, None, b""),
+        13 => response(504, j, br#"{"error":"access_denied"}"#),
+        14 => response(408, j, br#"{"error":"invalid_grant"}"#),
+        15 => response(502, j, br#"{"error":"expired_token"}"#),
+        16 => response(201, j, br#"{"access_token":"tok-OK","token_type":"bearer"}"#),
+        // non-decisive replies under other statuses than 400: the error CODE decides, not the status
+        20 => response(401, j, br#"{"error":"authorization_pending"}"#),
+        21 => response(503, j, br#"{"error":"authorization_pending"}"#),
+        22 => response(408, Some(&b"application/json; charset=utf-8"[..]), br#"{"error":"authorization_pending"}"#),
+        23 => response(429, j, br#"{"error":"slow_down"}"#),
+        24 => response(504, j, br#"{"error":"slow_down","error_description":"busy"}"#),
         _ => unreachable!(),
     })
 }
@@ -256,14 +268,24 @@ impl PollCase {
     }
 }
 
+/// 0 pending, 1 slow_down, 2 transport failure, 3 decisive
+fn cat(kind: u8) -> u8 {
+    match kind {
+        0 | 20 | 21 | 22 => 0,
+        1 | 23 | 24 => 1,
+        2 => 2,
+        _ => 3,
+    }
+}
+
 fn expected_outcome(kind: u8) -> &'static str {
     match kind {
         3 => "rok",
-        4 => "rsrv-access_denied",
-        5 => "rsrv-expired_token",
-        6 => "rsrv-invalid_grant",
-        7 | 9 | 10 => "rparse",
-        8 => "rother",
+        4 | 13 => "rsrv-access_denied",
+        5 | 15 => "rsrv-expired_token",
+        6 | 14 => "rsrv-invalid_grant",
+        7 | 9 | 10 | 16 => "rparse",
+        8 | 12 => "rother",
         11 => "rsrv-ext",
         _ => "?",
     }
@@ -274,8 +296,8 @@ impl CaseInput for PollCase {
 
     fn generate(r: &mut Rng, _idx: u64) -> Self {
         let n = *r.pick(&[0u64, 1, 1, 2, 3, 4, 6, 9]);
-        let mut script: Vec<u8> = (0..n).map(|_| *r.pick(&[0u8, 0, 1, 1, 2, 2])).collect();
-        script.push(*r.pick(&[3u8, 3, 4, 5, 6, 7, 8, 9, 10, 11]));
+        let mut script: Vec<u8> = (0..n).map(|_| *r.pick(&[0u8, 0, 0, 1, 1, 1, 2, 2, 2, 20, 21, 22, 23, 24])).collect();
+        script.push(*r.pick(&[3u8, 3, 3, 4, 5, 6, 7, 8, 9, 10, 11, 12, 13, 14, 15, 16]));
         let interval = match r.below(12) {
             0 => None,
             1 => Some(None),
@@ -458,7 +480,7 @@ impl CaseInput for PollCase {
                         _ => {}
                     }
                     if let Some(kind) = self.script.get(reqs - 1) {
-                        if *kind >= 3 {
+                        if cat(*kind) == 3 {
                             decided = true;
                         }
                     } else {
@@ -473,14 +495,14 @@ impl CaseInput for PollCase {
                     }
                     let kind = self.script.get(k).copied().unwrap_or(4);
                     k += 1;
-                    if kind == 1 {
+                    if cat(kind) == 1 {
                         sd += 1;
                     }
                     let floor = (base + 5_000_000_000 * sd).min(dmax);
                     if d < floor {
                         oracle.push(("C07:floor".into(), format!("wait #{k} = {d} ns < floor {floor} ns (interval {interval_s} s, {sd} slow_downs so far)")));
                     }
-                    match kind {
+                    match cat(kind) {
                         0 if d != prev => oracle.push(("C07:pending-changes-wait".into(), format!("{prev} -> {d}"))),
                         1 if d != (prev + 5_000_000_000).min(dmax) => oracle.push(("C07:slowdown-not-plus5".into(), format!("{prev} -> {d}"))),
                         2 if d < prev => oracle.push(("C07:failure-shortens".into(), format!("{prev} -> {d}"))),
@@ -526,7 +548,7 @@ impl CaseInput for PollCase {
         if let Some(first_sleep) = trace.iter().find(|e| e.starts_with('s')) {
             let d: u128 = first_sleep[1..].parse().unwrap();
             let k0 = self.script[0];
-            if k0 == 0 && d != base {
+            if cat(k0) == 0 && d != base {
                 oracle.push(("C19:first-wait".into(), format!("first wait {d} ns, reported interval {interval_s} s")));
             }
         }
@@ -560,7 +582,7 @@ impl CaseInput for PollCase {
             v.push(c);
         }
         for (i, k) in self.script.iter().enumerate() {
-            if *k != 0 && i + 1 < self.script.len() {
+            if *k != 0 && cat(*k) != 3 && i + 1 < self.script.len() {
                 let mut c = self.clone();
                 c.script[i] = 0;
                 v.push(c);
